@@ -49,15 +49,20 @@ fn oracle_resolve(name: &str, imports: &BTreeSet<String>, fwd: &BTreeSet<String>
     for b in BUILTINS.iter() {
         if b.1 == name && (b.3 || imports.contains(name)) { return vec![TypeKind::AndroidType(b.2.clone())]; }
     }
-    // imports: equal or ends with '.' + name; smallest qualified name wins (deterministic choice)
+    // imports: equal or ends with '.' + name. Several imports may serve one written name (same simple name in several
+    // packages): the statement does not say which one wins, so each of them is allowed here (that the choice does not depend
+    // on hash order is C11's business, checked by c11_determinism.rs)
     let suffix = format!(".{}", name);
-    if let Some(p) = imports.iter().filter(|p| p.as_str() == name || p.ends_with(&suffix)).min() {
+    let matching: Vec<&String> = imports.iter().filter(|p| p.as_str() == name || p.ends_with(&suffix)).collect();
+    if !matching.is_empty() {
         let mut allowed = Vec::new();
-        let builtin = BUILTINS.iter().find(|b| b.1 == p.as_str());
-        if let Some(b) = builtin { allowed.push(TypeKind::AndroidType(b.2.clone())); }
-        match defined.get(p) {
-            Some(kinds) => for k in kinds { allowed.push(TypeKind::ResolvedItem(p.clone(), k.clone())); },
-            None => if builtin.is_none() { allowed.push(TypeKind::ResolvedItem(p.clone(), ResolvedItemKind::UnknownImport)); },
+        for p in matching {
+            let builtin = BUILTINS.iter().find(|b| b.1 == p.as_str());
+            if let Some(b) = builtin { allowed.push(TypeKind::AndroidType(b.2.clone())); }
+            match defined.get(p) {
+                Some(kinds) => for k in kinds { allowed.push(TypeKind::ResolvedItem(p.clone(), k.clone())); },
+                None => if builtin.is_none() { allowed.push(TypeKind::ResolvedItem(p.clone(), ResolvedItemKind::UnknownImport)); },
+            }
         }
         return allowed;
     }
